@@ -617,6 +617,18 @@ impl Model {
         }
       }
 
+      Op::SelOpAssign { name, sel: _, op: _, e } => {
+        // Not implemented on the pinned tree (todo!() behind catch_unwind): whatever happens, every
+        // other binding must stay as it was; if it is rejected, this one too (f9).
+        let combo = format!("selector-op-assign|{}", e.form());
+        match eval(e, s) {
+          Ev::Fail(f) => { let mut v = self.must_err(&format!("f4-source-fails:{}", f), combo); if f == "undefined-var" { v.err_names = vec!["UndefinedVariable"]; } return v; }
+          _ => {}
+        }
+        if let Some(v) = self.writable(name, &combo) { return v; }
+        self.either_unknown(name, "f9-unimplemented-form", combo)
+      }
+
       Op::MapAssign { name, key, e } => {
         let combo0 = format!("map-assign|{}", e.form());
         let val = match eval(e, s) {
